@@ -13,11 +13,11 @@ pub fn property() -> Property {
         id: "C07",
         level: "exploration",
         rule: "stateful UCI sessions on ONE engine instance (in-process Engine<CommandUciTx>; every 8th session also over stdin/stdout of the real binary): 1..6 cycles of [ucinewgame] position (startpos|fen, with move history) go <limit>, limits drawn from depth 0..4, movetime 0..40, wtime/btime 0..6000 with winc/binc absent / 0 / >0 and movestogo, searchmoves (non-empty subset of the legal moves), infinite / nodes / mate / bare go followed by stop after 0..200 ms, stray stop / ponderhit / isready while idle; roots include positions that already occurred three times in the supplied history, single-reply, mate and stalemate roots. Oracle: one BestMove per go; for a root with legal moves it is a move of the reference legal set of the last position command (within searchmoves), never null; for a root without legal moves it is the null move; the search thread is alive at the end. Non-trivial = distinct (root, go-parameter class) with a time limit, searchmoves, a stop, or repetition history",
-        assumptions: &["the driver is a well-behaved GUI: never sends position/go while a search runs and always sends both clock times", "full-move numbers <= 2000 by construction (known finding K1); one explicit probe of K1 per run", "a 90 s silence with a live search thread is reported as inconclusive (exit 2), never as a violation"],
+        assumptions: &["searches that only `stop` ends (infinite / nodes / mate / bare go / depth cut by stop) are started only on roots whose half-move clock is below 90 (at the fifty-move limit the engine deepens without polling until it hits K1's depth form)", "the driver is a well-behaved GUI: never sends position/go while a search runs and always sends both clock times", "full-move numbers <= 2000 by construction (known finding K1); one explicit probe of K1 per run", "a 90 s silence with a live search thread is reported as inconclusive (exit 2), never as a violation"],
         parts: vec![
             Part {
                 name: "sessions",
-                quick: 320,
+                quick: 640,
                 thorough: 12_000,
                 single_shard: false, supplementary: false,
                 run: |cfg| run_part(cfg, session_strategy(), |r| build_session(r), check_session),
@@ -67,7 +67,7 @@ pub struct RawSession {
 }
 
 pub fn cycle_strategy() -> impl Strategy<Value = RawCycle> {
-    (any::<bool>(), prop_oneof![3 => gen::raw_pos(60), 2 => gen::raw_pos_endgames()], gen::raw_playout(24), 0..10u8, 0..12u8, any::<u32>(), any::<u32>(), (0..8u8, 0..7u8, 0..6u8)).prop_map(|(new_game, root, history, root_kind, go_kind, a, b, (stray, reuse, ponder))| RawCycle { new_game, root, history, root_kind, go_kind, a, b, stray, reuse, ponder })
+    (any::<bool>(), prop_oneof![3 => gen::raw_pos(60), 2 => gen::raw_pos_endgames(), 1 => gen::raw_synth_profiles(8, 9).prop_map(gen::RawPos::Synth)], gen::raw_playout(24), 0..10u8, 0..12u8, any::<u32>(), any::<u32>(), (0..8u8, 0..7u8, 0..6u8)).prop_map(|(new_game, root, history, root_kind, go_kind, a, b, (stray, reuse, ponder))| RawCycle { new_game, root, history, root_kind, go_kind, a, b, stray, reuse, ponder })
 }
 
 fn session_strategy() -> impl Strategy<Value = RawSession> {
@@ -146,7 +146,15 @@ pub fn build_go(c: &RawCycle, root: &Pos) -> GoSpec {
     let legal = root.legal_moves();
     let mut g = GoSpec::default();
     let stop_table = [0u64, 1, 5, 20, 80, 200];
-    match c.go_kind {
+    // A search that only `stop` can end reacts at the next poll (every 100,000 negamax nodes). With the
+    // half-move clock at the fifty-move limit every leaf is a draw, iterations cost a dozen nodes, the engine
+    // deepens thousands of plies per minute and hits finding K1's second form (root ply + depth >= 5000)
+    // before it ever polls. Such searches are therefore only started on roots with a clock below 90.
+    // The same happens, more slowly, on roots with almost no choice or with a repeated history (tiny iterations):
+    // those get no stop-only searches either. What still slips through is classified as K1 when it happens.
+    let risky = root.half >= 90 || legal.len() <= 2 || matches!(c.root_kind, 4 | 5) || root.board.iter().filter(|x| x.is_some()).count() <= 3;
+    let go_kind = if risky && (6..=10).contains(&c.go_kind) { c.go_kind % 2 } else { c.go_kind };
+    match go_kind {
         0 | 1 => g.depth = Some((c.a % 5) as u64),
         2 => g.movetime = Some([0u64, 0, 1, 2, 5, 10, 20, 40][(c.a % 8) as usize]),
         3 | 4 => {
@@ -170,7 +178,17 @@ pub fn build_go(c: &RawCycle, root: &Pos) -> GoSpec {
         }
         5 => {
             g.depth = Some(1 + (c.a % 3) as u64);
-            if !legal.is_empty() {
+            let under: Vec<&Mv> = legal.iter().filter(|m| matches!(m.promo, Some(k) if k != Kind::Queen)).collect();
+            if !under.is_empty() && c.b % 4 != 0 {
+                // only under-promotions: the promotion piece is part of the move
+                let m = under[c.b as usize / 4 % under.len()];
+                g.searchmoves.push(m.uci());
+                if c.b % 3 == 0 {
+                    if let Some(o) = under.iter().find(|o| o.from != m.from || o.to != m.to) {
+                        g.searchmoves.push(o.uci());
+                    }
+                }
+            } else if !legal.is_empty() {
                 // non-empty subset of the legal moves
                 let n = 1 + (c.b as usize % legal.len().min(4));
                 let start = c.a as usize / 4 % legal.len();
@@ -205,6 +223,20 @@ pub fn build_go(c: &RawCycle, root: &Pos) -> GoSpec {
             if !legal.is_empty() && c.b % 2 == 0 {
                 g.searchmoves.push(legal[c.b as usize / 2 % legal.len()].uci());
             }
+        }
+    }
+    if g.searchmoves.is_empty() && g.depth.map_or(false, |d| d >= 1) && c.b % 3 == 0 {
+        // whenever the root offers under-promotions, restrict a third of the depth searches to one of them
+        let under: Vec<&Mv> = legal.iter().filter(|m| matches!(m.promo, Some(k) if k != Kind::Queen)).collect();
+        if !under.is_empty() {
+            g.searchmoves.push(under[c.a as usize % under.len()].uci());
+        }
+    }
+    // time guard only: with several pawns about to promote the quiescence trees explode (millions of nodes at depth 3)
+    let storm = (0..8).filter(|&f| root.board[crate::refmodel::sq(f, 6) as usize] == Some((crate::refmodel::Color::White, Kind::Pawn))).count() + (0..8).filter(|&f| root.board[crate::refmodel::sq(f, 1) as usize] == Some((crate::refmodel::Color::Black, Kind::Pawn))).count();
+    if storm >= 3 {
+        if let Some(d) = g.depth {
+            g.depth = Some(d.min(2));
         }
     }
     if c.ponder == 0 {
@@ -321,6 +353,9 @@ pub fn judge_answer(root: &Pos, hist_len: usize, g: &GoSpec, best: Option<String
     }
     let cls = go_class(g);
     ctx.class(cls);
+    if g.searchmoves.iter().any(|m| m.len() == 5 && !m.ends_with('q')) {
+        ctx.class("searchmoves_under_promotion");
+    }
     ctx.class(match legal.len() {
         0 => "root_without_legal_moves",
         1 => "root_single_reply",
@@ -382,7 +417,13 @@ pub fn check_session(case: &SessionCase, ctx: &mut Ctx) -> Result<(), String> {
                 }
                 match s.search(g) {
                     Wait::Done(out) => judge_answer(&root, hist_len, g, out.best_uci(), ctx).map_err(|e| format!("{e}; session so far: {trace:?}"))?,
-                    Wait::ThreadDied(why) => return Err(format!("no bestmove for `{}` at root {}: {why}; session so far: {trace:?}", g.to_line(), root.fen())),
+                    Wait::ThreadDied(_, d) if crate::engsess::is_k1_depth_form(root_ply(&root), d) => {
+                        // known finding K1 (depth form): not a new violation; the instance is gone, the session ends here
+                        ctx.known.insert(crate::engsess::K1_DEPTH_FORM.to_string());
+                        ctx.class("k1_depth_form_met");
+                        return Ok(());
+                    }
+                    Wait::ThreadDied(why, _) => return Err(format!("no bestmove for `{}` at root {}: {why}; session so far: {trace:?}", g.to_line(), root.fen())),
                     Wait::Timeout => return Err(format!("{HARNESS_PREFIX} watchdog: no bestmove within 90 s for `{}` at root {} (inconclusive)", g.to_line(), root.fen())),
                 }
                 ctx.evals(1);
@@ -446,7 +487,11 @@ fn check_session_binary(case: &SessionCase, ctx: &mut Ctx) -> Result<(), String>
                         judge_answer(&root, hist_len, g, best, ctx).map_err(|e| format!("(binary) {e}"))?;
                         ctx.class("via_binary");
                     }
-                    Err(Wait::ThreadDied(why)) => return Err(format!("(binary) no bestmove for `{}` at root {}: {why}", g.to_line(), root.fen())),
+                    Err(Wait::ThreadDied(_, d)) if crate::engsess::is_k1_depth_form(root_ply(&root), d) => {
+                        ctx.known.insert(crate::engsess::K1_DEPTH_FORM.to_string());
+                        return Ok(());
+                    }
+                    Err(Wait::ThreadDied(why, _)) => return Err(format!("(binary) no bestmove for `{}` at root {}: {why}", g.to_line(), root.fen())),
                     Err(_) => return Err(format!("{HARNESS_PREFIX} watchdog: binary silent for 90 s at root {}", root.fen())),
                 }
             }
@@ -470,7 +515,7 @@ fn probe_k1(cfg: &PartCfg) -> PartOutcome {
     match s.search(&GoSpec::depth(2)) {
         Wait::Done(o) if o.best.is_some() => out.notes.push("K1 probe: fullmove 2600 answered normally (finding no longer reproduces)".into()),
         Wait::Done(_) => out.known_findings.push("fullmove>2500 bestmove-0000".into()),
-        Wait::ThreadDied(_) => out.known_findings.push("fullmove>2500 history-index-out-of-range (search thread dies, no bestmove)".into()),
+        Wait::ThreadDied(_, _) => out.known_findings.push("fullmove>2500 history-index-out-of-range (search thread dies, no bestmove)".into()),
         Wait::Timeout => out.notes.push("K1 probe inconclusive".into()),
     }
     out.samples.push(serde_json::json!({"k1_probe": fen}));
@@ -506,4 +551,9 @@ pub fn sibling_history(fen: &str, moves: &[String]) -> Option<Vec<String>> {
         }
     }
     None
+}
+
+/// index of the root in the engine's repetition history
+pub fn root_ply(root: &Pos) -> u64 {
+    2 * (root.full.saturating_sub(1)) + if root.turn == crate::refmodel::Color::Black { 1 } else { 0 }
 }
